@@ -109,8 +109,10 @@ func (e *endpoint) readLoop(peer byte, done chan struct{}) {
 			if !ok {
 				e.bad = true
 			}
-			e.mu.Unlock()
+			// logged while e.mu is held: whoever sees the new counter (sync points read it under e.mu)
+			// finds the recv event already in the trace, so a sync event can never overtake it
 			e.log(map[string]interface{}{"ev": "recv", "side": string(e.side), "n": n, "ok": ok})
+			e.mu.Unlock()
 		}
 		if err != nil {
 			e.mu.Lock()
